@@ -28,7 +28,7 @@ FUNCTIONS = ['uxarray.grid.neighbors._construct_edge_node_distances',
     'uxarray.core.dataarray.UxDataArray.difference@dims=n_node;face',
     'uxarray.core.dataarray.UxDataArray.difference@dims=n_face;bogus',
     'uxarray.grid.slice._slice_face_indices']
-STANDINS = ["edge_quantities"]
+STANDINS = ["edge_quantities", "consumers"]
 ASSUMPTIONS = ["A-TRIG"]
 EXPLANATION = "distance constructors pointwise"
 LEVEL_TEXT = '_slice_face_indices proved to drop edge_face_distances (recomputed on the subset, where boundary edges differ) while keeping edge_node_distances; UxDataArray.gradient / difference proved in dataflow form: the kernel of the matching element kind gets this array and the edge tables / distances of ITS OWN grid, the result lives on the edge dimension of the same grid, every unsupported (kind, destination) pair is rejected; _construct_edge_node_distances / _construct_edge_face_distances proved for all tables (law-of-cosines expression of the edge\'s own two nodes / two face centres, zero on boundary edges, index-space and degree/radian ghosts); _calculate_edge_face_difference, _calculate_edge_node_difference and the un-normalised _calculate_grad_on_edge_from_faces proved for rank 1 and 2 (absolute difference of the two neighbours, divided by the centre distance, zero on boundary edges, inputs incl. the grid\'s distance table not written); normalisation, wrappers and source-supplied distances bounded'
